@@ -50,12 +50,12 @@ theorem lround_close (q : Rat) : (lround q : Rat) - q ≤ 1 / 2 ∧ q - (lround 
     rw [Rat.intCast_neg]
     constructor <;> grind
 
-theorem lround_nonneg {q : Rat} (h : 0 ≤ q) : 0 ≤ lround q := by
+theorem kern_lround_nonneg {q : Rat} (h : 0 ≤ q) : 0 ≤ lround q := by
   unfold lround; rw [if_pos h]
   exact Rat.le_floor_iff.mpr (by simp only [Rat.intCast_zero]; grind)
 
 theorem lround_nonpos {q : Rat} (h : q ≤ 0) : lround q ≤ 0 := by
-  have := lround_nonneg (q := -q) (by grind)
+  have := kern_lround_nonneg (q := -q) (by grind)
   rw [lround_neg] at this; omega
 
 /-! ### Name tables -/
